@@ -248,9 +248,8 @@ Proof.
     destruct (Bool.eqb (cl_cached cl) b); inversion H; subst; [exact R|]. simpl. now rewrite clear_obj_reent.
   - unfold set_ref_value in H. destruct (lookup_ref (s_refs st) r) as [[sp w]|]; inversion H; subst; [|exact R].
     simpl. rewrite (fold_reent on_namespace_change).
-    + unfold clear_attr_referrers. simpl. rewrite (fold_reent clear_no_rg); [exact R|].
-      intros s a. unfold clear_no_rg. destruct (mem_node (node_of a) (s_nodes s)); [|reflexivity].
-      now rewrite fold_clear_trace_reent.
+    + unfold clear_attr_referrers. simpl. rewrite (fold_reent clear_reader); [exact R|].
+      intros s a. apply clear_with_descs_reent.
     + intros s a. unfold on_namespace_change. destruct (lookup_cell (s_cells s) a) as [cl|]; [|reflexivity].
       destruct (cl_cached cl); [apply clear_all_values_reent|apply clear_obj_reent].
   - inversion H; subst. exact R.
